@@ -295,6 +295,10 @@ func propC08(j *Job) {
 		b.RecvBuf = 1500
 		j.Explore("CB/"+mode.Name+"/W1b+Wxb+Wyb+Wzb+Xh", concScenario(&concSpec{A: a, B: b, prog: "W1b Wxb Wyb Wzb Xh", yield: true}), Budget{}, nil)
 	}
+	// Close by another goroutine while Shutdown waits for data that never gets through
+	for _, mode := range stdModes()[:2] {
+		j.Explore("CS/"+mode.Name, closeDuringShutdownScenario(withBase(mode.A, 228, 0xFFFFFFFE, 4000), withBase(mode.B, 228, 50, 4000)), Budget{D: map[bool]int{false: 2, true: 3}[j.Thorough()]}, nil)
+	}
 	modes := stdModes()
 	faults := faultSet{Drop: true, Dup: true, Late: true, Swap: true}
 	for mi, mode := range modes {
